@@ -131,6 +131,8 @@ def unordered_rule(ctx, rep, cl, functions):
                     for x, _ in walk_effects(bp.effects):
                         if x.kind == "call" and M.callee_name(x.a) in ("write", "append", "extend", "insert", "writelines", "join"):
                             ordered.append(show(x.a)[:60])
+                        elif x.kind == "call" and (x.a[1] == ("builtin", "open") or any(t[0] in ("func", "cls") for t in ctx.G.resolve_callee(x.a[1], f))):
+                            ordered.append(show(x.a)[:60])  # file I/O or a package function (may write / allocate numbered pseudonyms)
                         if x.kind == "store_sub":
                             ordered.append(repr(x)[:60])
                     for nme, (pre, posts) in li.carried.items():
